@@ -302,6 +302,10 @@ func (c *Ctx) Finish() {
 	c.mu.Unlock()
 	b, _ := json.MarshalIndent(ev, "", " ")
 	evdir := filepath.Join(run.Root(), "evidence")
+	if r := os.Getenv("VERIF_REPO"); r != "" && filepath.Clean(r) != "/repo" {
+		// a run against a scratch copy (seeded change, mutant) must not replace the evidence of /repo
+		evdir = filepath.Join(run.Root(), "work", "evidence-other-tree")
+	}
 	os.MkdirAll(evdir, 0777)
 	os.WriteFile(filepath.Join(evdir, c.Prop+".json"), b, 0644)
 	for _, f := range c.known {
